@@ -8,9 +8,14 @@ shared `Roller/Model.lean` leaves abstract:
   name p i      = expand_env_vars(pattern.replace("{}", &i.to_string()))      (`rotate`)
   hasHole p     = pattern.contains("{}")                                       (`build` rejects otherwise)
   compressionOf = `Path::new(pattern).extension()` ∈ {"gz","zst"}              (`build`)
-  rollU32       = `roll` with the `u32` arithmetic of `base + count - 1` made explicit: the sum
-                  `base + count` is formed first, so it overflows as soon as base + count ≥ 2^32
-                  (panic with overflow checks; wraps otherwise) — defect F11.
+  representable = the window's last index `base + count - 1` is a `u32`; since the fix e76ee7b the
+                  builder returns Err for the other windows (`buildOk`)
+  rollU32       = `roll` with the `u32` arithmetic made explicit: `base + (count - 1)` — it cannot
+                  overflow for a representable window (the panic branch is what the arithmetic
+                  would do for a roller the builder never yields)
+  rollU32_unfixed = the code before the fix (defect F11): `base + count - 1` forms `base + count`
+                  first, so it overflowed as soon as base + count ≥ 2^32 — also for the
+                  representable window base = 2^32-1, count = 1.
 
 `expandEnv` is a single left-to-right pass over `$ENV{NAME}` references. It coincides with the
 code's replace-all loop whenever no substituted value (together with its context) forms a new
@@ -108,15 +113,32 @@ def RollerCfg.enc (r : RollerCfg) (x : Bytes) : Bytes :=
   | .none => x
   | _ => r.codec x
 
+/-- the last index `base + count - 1` of the window fits in a `u32` (no window for count = 0) -/
+def representable (base count : Nat) : Bool := count = 0 || base + count ≤ U32_MOD
+
+/-- `FixedWindowRollerBuilder::build` succeeds: the pattern contains `{}` and (since e76ee7b,
+`base.checked_add(count - 1)`) the window is representable -/
+def buildOk (p : List Char) (base count : Nat) : Bool := hasHole p && representable base count
+
+def liftRoll (x : Except FsErr Disk × Disk) : Outcome FsErr Disk × Disk :=
+  match x with
+  | (.ok d', d'') => (.ok d', d'')
+  | (.error e, d'') => (.err e, d'')
+
 /-- `FixedWindowRoller::roll` with the `u32` arithmetic explicit (overflow checks on, as in the
-harness build and in every debug build): `base + count - 1` panics when `base + count ≥ 2^32`. -/
+harness build and in every debug build): the loop bound is `base + (count - 1)`, which overflows
+only for an unrepresentable window — and those the builder rejects. -/
 def rollU32 (r : RollerCfg) (file : Path) (fault : Nat → Bool) (d : Disk) :
+    Outcome FsErr Disk × Disk :=
+  if r.count ≠ 0 ∧ U32_MOD < r.base + r.count then
+    (.panic "attempt to add with overflow", d)
+  else liftRoll (fixedWindowRoll r file fault d)
+
+/-- the roll before the fix e76ee7b (F11): `base + count - 1` panicked when `base + count ≥ 2^32` -/
+def rollU32_unfixed (r : RollerCfg) (file : Path) (fault : Nat → Bool) (d : Disk) :
     Outcome FsErr Disk × Disk :=
   if r.count ≠ 0 ∧ U32_MOD ≤ r.base + r.count then
     (.panic "attempt to add with overflow", d)
-  else
-    match fixedWindowRoll r file fault d with
-    | (.ok d', d'') => (.ok d', d'')
-    | (.error e, d'') => (.err e, d'')
+  else liftRoll (fixedWindowRoll r file fault d)
 
 end Log4rs.Roller
